@@ -485,6 +485,23 @@ fn shared_include_trees() -> Vec<Tree> {
         let main = format!("{head}{}    {}\n{tail}", meas("ma", &format!("      {}\n", d("attr.a2l"))), d("fb.a2l"));
         out.push(Tree { label: format!("a snippet included directly and again through another include file ({dir:?})"), class: "shared:direct+nested".into(), files: vec![("main.a2l".into(), main), (format!("{dir}fb.a2l"), fb2), (format!("{dir}attr.a2l"), snippet.to_string())], flattened: format!("{head}{}{}{tail}", meas("ma", snippet), meas("mb", snippet)), includes: 2, a2ml_include: false });
     }
+    // (d) inside one A2ML-described IF_DATA block: the same include file named in two tagged groups of one struct / of two
+    // entries of a repetition (all of them are written by one writer)
+    {
+        let a2ml = "    /begin A2ML\n      block \"IF_DATA\" taggedunion {\n        \"ZZ\" (struct { uint; taggedstruct { block \"Q\" uint; }; })*;\n        \"YY\" struct { taggedstruct { block \"Q\" uint; }; uint; taggedstruct { block \"Q\" uint; }; };\n      };\n    /end A2ML\n";
+        let q = "/begin Q 7 /end Q\n";
+        for (dir, quoted) in [("", true), ("inc/", false)] {
+            let d = inc_directive(&format!("{dir}q.a2l"), quoted);
+            for (label, with_inc, flat) in [
+                ("two entries of a repetition", format!("ZZ 1\n      {d}\n      2\n      {d}\n"), "ZZ 1\n      /begin Q 7 /end Q\n      2\n      /begin Q 7 /end Q\n".to_string()),
+                ("three entries of a repetition, the middle one without", format!("ZZ 1\n      {d}\n      2 3\n      {d}\n"), "ZZ 1\n      /begin Q 7 /end Q\n      2 3\n      /begin Q 7 /end Q\n".to_string()),
+                ("two tagged groups of one struct", format!("YY\n      {d}\n      5\n      {d}\n"), "YY\n      /begin Q 7 /end Q\n      5\n      /begin Q 7 /end Q\n".to_string()),
+            ] {
+                let doc = |payload: &str| format!("{head}{a2ml}    /begin IF_DATA {payload}    /end IF_DATA\n{tail}");
+                out.push(Tree { label: format!("one include file named twice inside one IF_DATA block: {label} ({dir:?})"), class: "shared:inside-if-data".into(), files: vec![("main.a2l".into(), doc(&with_inc)), (format!("{dir}q.a2l"), q.to_string())], flattened: doc(&flat), includes: 2, a2ml_include: false });
+            }
+        }
+    }
     out
 }
 
